@@ -16,6 +16,7 @@ import (
 	"fmt"
 	"net/http"
 	"net/http/httptest"
+	"net/textproto"
 	"net/url"
 	"reflect"
 	"sort"
@@ -162,17 +163,23 @@ func (p *c08hParser) parseSingle() map[string]string {
 	return m
 }
 
-// { k [ s:v ... ] ... } in order
+// { k [ s:v ... ] | k null ... } in order; `k [ ]` = empty slice, `k null` = nil slice
 func (p *c08hParser) parseMulti() (keys []string, vals [][]string) {
 	if p.next() != "{" {
 		panic("c08h: { expected")
 	}
 	for p.peek() != "}" {
 		k := p.next()
-		if p.next() != "[" {
+		t := p.next()
+		if t == "null" {
+			keys = append(keys, k)
+			vals = append(vals, nil)
+			continue
+		}
+		if t != "[" {
 			panic("c08h: [ expected")
 		}
-		var vs []string
+		vs := []string{}
 		for p.peek() != "]" {
 			v := p.next()
 			if !strings.HasPrefix(v, "s:") {
@@ -282,8 +289,24 @@ func c08hClass(err error) string {
 	return "other:" + strings.ReplaceAll(s, " ", "_")
 }
 
+// op[0]: p = Parse, pp = ParsePath, pf = ParseForm, ph = ParseHeaders, pj = ParseJsonBody
 func c08hExec(op []string) string {
-	if len(op) < 10 || op[0] != "p" || op[1] != "T" {
+	if len(op) < 10 || op[1] != "T" {
+		return "bad-op"
+	}
+	var fn func(r *http.Request, v any) error
+	switch op[0] {
+	case "p":
+		fn = Parse
+	case "pp":
+		fn = ParsePath
+	case "pf":
+		fn = ParseForm
+	case "ph":
+		fn = ParseHeaders
+	case "pj":
+		fn = ParseJsonBody
+	default:
 		return "bad-op"
 	}
 	p := &c08hParser{toks: op[2:]}
@@ -304,7 +327,11 @@ func c08hExec(op []string) string {
 		return "bad-op"
 	}
 	q := url.Values{}
+	zeroForm := false
 	for i, k := range fkeys {
+		if len(fvals[i]) == 0 {
+			zeroForm = true
+		}
 		for _, v := range fvals[i] {
 			q.Add(k, v)
 		}
@@ -326,14 +353,24 @@ func c08hExec(op []string) string {
 	if p.pos != len(p.toks) {
 		return "bad-op"
 	}
-	for i, k := range hkeys {
-		for _, v := range hvals[i] {
-			r.Header.Add(k, v)
+	if zeroForm {
+		// a form name without values (a middleware that emptied r.Form[name]): nil or empty slice
+		if err := r.ParseForm(); err != nil {
+			return "bad-op"
 		}
+		for i, k := range fkeys {
+			if len(fvals[i]) == 0 {
+				r.Form[k] = fvals[i]
+			}
+		}
+	}
+	// the header map as net/http delivers it (canonical names), the value slice exactly as given: nil, empty, one, several
+	for i, k := range hkeys {
+		r.Header[textproto.CanonicalMIMEHeaderKey(k)] = hvals[i]
 	}
 	r = pathvar.WithVars(r, pvars)
 	v := reflect.New(ty)
-	if err := Parse(r, v.Interface()); err != nil {
+	if err := fn(r, v.Interface()); err != nil {
 		return "err " + c08hClass(err)
 	}
 	var out strings.Builder
@@ -615,8 +652,8 @@ func c08hGenOp(r *verifh.Rng, fs []*c08hField) string {
 			n := 1
 			if f.slice {
 				n = r.Pick(1, 2, 3)
-			} else if r.Chance(1, 8) {
-				n = 2 // several values for a scalar field
+			} else if r.Chance(1, 6) {
+				n = r.Pick(2, 2, 3) // several values for a scalar field
 			}
 			if f.src == "form" && f.slice && r.Chance(1, 4) {
 				key += "[]" // bracket notation
@@ -628,14 +665,19 @@ func c08hGenOp(r *verifh.Rng, fs []*c08hField) string {
 			if f.src == "header" {
 				b = &hb
 			}
+			if r.Chance(1, 9) {
+				// a key without values: empty slice or nil slice (http.Header{"X": nil}, r.Form[name] = kept[:0])
+				b.WriteString(" " + key + " " + r.PickS("[ ]", "null"))
+				continue
+			}
 			b.WriteString(" " + key + " [")
 			for i := 0; i < n; i++ {
 				t := c08hText(r, f)
 				if f.src == "header" {
 					t = strings.TrimSpace(t)
 				}
-				if f.src == "form" && r.Chance(1, 12) {
-					t = "" // empty values are ignored by GetFormValues
+				if r.Chance(1, 12) {
+					t = "" // empty values are ignored by GetFormValues; an empty header value is a value
 				}
 				if strings.Contains(t, " ") {
 					t = "a_b"
@@ -655,7 +697,9 @@ func c08hGenOp(r *verifh.Rng, fs []*c08hField) string {
 			body = r.PickS("[ ]", "n:1", "{ zz n:1 }")
 		}
 	}
-	return "p T " + c08hTypeTokens(fs) + " P {" + pb.String() + " } F {" + fb.String() + " } H {" + hb.String() + " } B " + body
+	// mostly the whole of Parse, else one of its four parts alone
+	head := r.PickS("p", "p", "p", "p", "p", "p", "pp", "pf", "ph", "ph", "pj")
+	return head + " T " + c08hTypeTokens(fs) + " P {" + pb.String() + " } F {" + fb.String() + " } H {" + hb.String() + " } B " + body
 }
 
 func c08hGen(r *verifh.Rng) []verifh.Section {
@@ -669,7 +713,14 @@ func c08hGen(r *verifh.Rng) []verifh.Section {
 				"p T { A int t:path|a,range=[1:5] } P { a s:6 } F { } H { } B none",
 				"p T { A int t:form|a,optional=b,range=[1:5] B int t:form|b,optional } P { } F { a [ s:9 ] b [ s:1 ] } H { } B none",
 				"p T { A str t:header|a,optional B str t:header|b,optional=!a } P { } F { } H { A [ s:1 ] b [ s:2 ] } B none",
-				"p T { A int t:form|a B int t:json|b,range=(0:10] } P { } F { a [ s:1 s:2 ] } H { } B { b n:10 }")
+				"p T { A int t:form|a B int t:json|b,range=(0:10] } P { } F { a [ s:1 s:2 ] } H { } B { b n:10 }",
+				// a header / form key without values: nil and empty value slices
+				"p T { A str t:header|a,optional B [] str t:header|b,optional } P { } F { } H { a [ ] b [ ] } B none",
+				"ph T { A str t:header|a,default=x B [] int t:header|b } P { } F { } H { a null b null } B none",
+				"ph T { A int t:header|a,range=[1:5] B [] int t:header|b } P { } F { } H { a [ s:5 ] b [ s:1 s: s:3 ] } B none",
+				"pf T { A int t:form|a,optional B [] int t:form|b,optional } P { } F { a [ ] b null } H { } B none",
+				"pp T { A int t:path|a,range=[1:5] B str t:path|b } P { a s:3 b s: } F { } H { } B none",
+				"pj T { A int t:json|a,range=[1:5] B str t:form|b } P { } F { } H { } B { a n:5 }")
 		}
 		ntypes := verifh.Scale(10, 25)
 		for k := 0; k < ntypes; k++ {
